@@ -33,7 +33,7 @@ class Sim:
         c = self.free()
         if c is None: return
         self.k[c] = kind
-        if kind in 'ALB': self.seq[c] = []
+        if kind in 'ALBC': self.seq[c] = []
         else: self.map[c] = {}
         self.emit(f'new {c} {self.kt(kind)}')
         return c
@@ -67,7 +67,7 @@ class Sim:
         f = r.random() < fail
         ops = ['push'] * (8 if big else 4) + ['append', 'pop', 'popat', 'set', 'rem', 'resize', 'pushat', 'pushat', 'sort']
         op = r.choice(ops)
-        if k == 'B' and op in ('set', 'rem', 'pushat', 'sort'): op = 'push'      # Box elements: see assumptions
+        if k in 'BC' and op in ('set', 'rem', 'sort'): op = 'push' if r.random() < 0.6 else 'pushat'   # Box elements: see assumptions
         if op == 'sort' and k != 'A': op = 'pop'
         if op in ('push', 'append'):
             p = self.pay(); xs.append(p); self.emit(f'{op} {c} {p}')
@@ -88,12 +88,12 @@ class Sim:
             self.emit(f'rem {c} {p}')
         elif op == 'resize':
             m = r.choice([0, n, max(n - 1, 0), n // 2, r.randrange(n + 1)])
-            if k != 'L' and r.random() < 0.3: m = n + r.randrange(1, 9)          # Array: capacity only
+            if k in 'AB' and r.random() < 0.3: m = n + r.randrange(1, 9)          # Array: capacity only
             if m < n: del xs[m:]
             self.emit(f'resize {c} {m}')
         elif op == 'pushat':
             p = self.pay()
-            if k == 'A':
+            if k in 'AB':
                 if f: i = r.choice([n + 1, n + 3, -n - 2, -n - 9])
                 else:
                     j = r.randrange(n + 1); i = j if r.random() < 0.6 else j - (n + 1)
@@ -128,7 +128,7 @@ class Sim:
     # ---- between containers
     def pair_op(self):
         r = self.rng
-        op = r.choice(['copy', 'copy', 'assign', 'assign', 'assign', 'concat', 'selfassign'])
+        op = r.choice(['copy', 'copy', 'assign', 'assign', 'assign', 'concat', 'selfassign', 'xassign'])
         seqs, maps = self.of('AL'), self.of('TR')
         if op == 'copy':
             src = r.choice(seqs + maps) if seqs + maps else None
@@ -142,21 +142,30 @@ class Sim:
             fam = r.choice([seqs, maps])
             if not fam: return
             d = r.choice(fam)
-            tgt = [c for c in (fam + (self.of('B') if fam is seqs else [])) if c != d]
+            tgt = [c for c in (fam + (self.of('BC') if fam is seqs else [])) if c != d]
             if not tgt: return
             c = r.choice(tgt)
             if fam is seqs:
                 self.seq[c] = list(self.seq[d])
-                if self.k[c] == 'B': self.k[c] = 'A'        # Array_Assign takes the element type of the source
+                if self.k[c] in 'BC': self.k[c] = 'A' if self.k[c] == 'B' else 'L'    # *_Assign takes the element type of the source
             else: self.map[c] = dict(self.map[d])
             self.emit(f'assign {c} {d}')
+        elif op == 'xassign':
+            # sequence <- *empty* Table / Tree (a non-empty one is refused after the clear: out of contract, see assumptions)
+            dst = self.of('ALBC')
+            if not dst or not maps: return
+            c, d = r.choice(dst), r.choice(maps)
+            if self.map[d]:
+                if r.random() < 0.5: return
+                self.map[d].clear(); self.emit(f'resize {d} 0')
+            self.seq[c] = []
+            if self.k[c] in 'BC': self.k[c] = 'A' if self.k[c] == 'B' else 'L'
+            self.emit(f'assign {c} {d}')
         elif op == 'selfassign':
-            cs = seqs + maps
+            cs = seqs + maps + self.of('BC')
             if not cs: return
             c = r.choice(cs)
-            if c in self.seq: self.seq[c] = []
-            else: self.map[c] = {}
-            self.emit(f'assign {c} {c}')                     # the container is cleared before it is read
+            self.emit(f'assign {c} {c}')                     # `if (self is obj) return;` (fix a3140e4): nothing happens
         else:
             if len(seqs) < 2: return
             c, d = r.sample(seqs, 2)
@@ -189,7 +198,7 @@ def history(rng, nops, weights, paymax=40, keypool=None, maxlen=40, big=False, f
             c = rng.choice(list(s.k))
             k = s.k[c]
             if k == 'X': continue
-            if k in 'ALB':
+            if k in 'ALBC':
                 if len(s.seq[c]) > maxlen and not big:
                     s.seq[c] = s.seq[c][:maxlen // 2]; s.emit(f'resize {c} {maxlen // 2}')
                 else: s.seq_op(c, fail, big)
@@ -224,13 +233,22 @@ def growth(rng, n, kind, types=''):
 
 class C05(Spec):
     id = 'C05'; engine = 'own'; harness = 'h_own'; driver = 'drv_own'
-    generators = ('Own',)
+    generators = ('Own', 'Table')     # Table: the parameters of src/Table.c that C05_table_source_good is stated about
     harness_timeout = 300
     technique = ('Lean 4 proof over an ownership-level model of every Array/List/Table/Tree/Box operation (per-operation conservation of '
-                 'element identities, invariant over all histories); the model is tied to the C code by running generated histories on the '
+                 'element identities, invariant over all histories), composed with the structural models of the two map containers '
+                 '(robin-hood slot array of C02, red-black tree with word-level predecessor copy of C03) instantiated with token-valued '
+                 'records: the ownership steps are proved to be what set / rem / resize / rehash / displacement / back-shift / rotation / '
+                 'predecessor copy do to the stored tokens; the model is tied to the C code by running generated histories on the '
                  'real containers with a probe element type and a token ledger, comparing per operation the constructed / finalised / '
                  'in-place-assigned elements and the contents; independent ledger oracle under ASan')
-    level_text = ('Theorems C05_conservation_{array,list,map,partial}, C05_history_partial, C05_live_count_partial, '
+    level_text = ('Theorems C05_moves_{table,table_rehash_displace,tree,tree_rotate_copy,histories,constructors} + C05_table_source_good: '
+                  'for every hash function and every slot array / red-black tree satisfying the representation invariant of C02 / C03, the '
+                  'structural model of Table_Set / Table_Rem / Table_Resize / Table_New / Table_Assign and of Tree_Set / Tree_Rem / Tree_Resize / '
+                  'Tree_New / Tree_Assign never fails, constructs / finalises / assigns in place exactly the tokens of the ownership model, and the '
+                  'stored tokens afterwards + finalised = stored tokens before + constructed (rehash, displacement, back-shift, rotations, '
+                  'predecessor memcpy neither drop nor duplicate), over every history. '
+                  'Theorems C05_conservation_{array,list,map,partial}, C05_history_partial, C05_live_count_partial, '
                   'C05_never_while_contained_partial, C05_deep_{partial,assign_partial,independent,no_foreign_finalise}, '
                   'C05_refused_no_effect_partial: in the ownership model of the container code, every operation conserves element identities '
                   '(contents after + finalised = contents before + constructed), constructed identities are fresh, so over every history of '
@@ -243,24 +261,32 @@ class C05(Spec):
     level_note = ('Trusted: Lean kernel; harness/driver comparison (testing) for the step correspondence; the probe element type stands for '
                   '"an element type with its own constructor, assignment and destructor that owns heap memory". Known findings excluded from '
                   'the contract: Box_Assign is shallow (F28), List_Resize growing a list links unconstructed elements. '
-                  'Not modelled: slot layout of Table / shape of Tree (C02/C03), capacity.')
+                  'Array_Assign from a source whose get raises leaves len counting unconstructed records (own-array-assign-partial). '
+                  'Array / List moves (memmove, realloc, re-linking) are list surgery in the model: their structural model is C04\'s; '
+                  'the Table / Tree layouts are composed in (C05_moves_*), their step-by-step agreement with the C code is checked by the C02 / C03 engines. '
+                  'Statements hold after every operation, not inside one.')
     rule = ('histories over up to 12 simultaneously live containers of all kinds (Array, List, Table, Tree of probe elements; Array of Box; '
             'stand-alone Box): (a) mixed, (b) sequence-heavy (push/push_at/pop/pop_at/set/rem/resize/sort/concat/assign Array<->List), '
             '(two probe element types of different size — 24 and 48 bytes, the larger with guard words around its owned pointer — in every key/value/element position); (c) map-heavy with 36 keys sharing 6 hash values (clusters, displacement, replace of existing keys, rem with backward shift, '
             'explicit resize, rehash up and down, assign Table<->Tree), (d) growth to n elements then copy and shrink, (e) Box containers, '
+            '(e\') List of Box, push_at of a Box at accepted and refused positions, assignment of an empty Table/Tree to a sequence, self-assignment of every kind, '
             '(f) error-heavy (25% failing calls: empty pop, bad index, absent key/element, refused resize), read-only probes (len/iteration/get/mem/hash/eq '
             'must cause no ownership event), plus constructors with initial '
             'elements, copies, self-assignment, deletions in any order; every op file ends with the deletion of all remaining containers. '
             'non-trivial item = one executed operation whose observation shows an ownership event (element constructed, finalised or '
             'assigned in place) or a raised exception; distinct = distinct (operation text, observation) pairs.')
     trusted_base = ('harness/h_own.c + lean/Driver/Own.lean (step correspondence is testing)',
+                    'Cello/Table.lean and Cello/RBTree.lean mirror src/Table.c and src/Tree.c slot by slot / node by node: validated by the C02 / C03 engines (h_table, h_tree), imported here',
                     'translate/g_own.py (regex over the container sources: which functions call destruct/assign/memcpy)',
                     'the probe element type of the harness stands for every element type with New/Assign/Del owning heap memory',
-                    'Table slot layout and Tree shape are abstracted (contents as key-sorted association list): C02/C03 cover them')
+                    'in the world of several containers a Table / Tree is its key-sorted association list; C05_moves_* prove that this is what the slot array / red-black tree holds after every operation')
     assumptions = ('single thread, collector running, containers deleted explicitly with del (collector-driven finalisation is C06)',
-                   'Box elements excluded from copy/assign/concat and from set: Box_Assign copies the pointer (known finding own-box-assign-shallow, F28)',
+                   'Box as source of copy/assign/concat, set over a stored Box, Box-to-Box assign and ref(box, x) excluded: Box_Assign / Box_Ref copy the pointer and drop the old pointee (known finding own-box-assign-shallow, F28); push / push_at (also refused) / pop / pop_at / resize / del / self-assign on Array and List of Box are in contract',
                    'resize(list, n) with n > len excluded: List_Resize links zero-filled, never constructed elements (known finding own-list-resize-raw)',
-                   'assignment/concat across families (sequence <- map) and concat of a container with itself are outside what the code supports and are not generated',
+                   'assign(Array or List, non-empty Table or Tree) excluded: refused (ValueError) after the destination was cleared, and Array_Assign has already set len = len(source) over unconstructed records (known finding own-array-assign-partial); from an empty Table / Tree it is in contract and generated',
+                   'assign(Table or Tree, Array or List) is not modelled (the map takes Int as key type and refuses probe keys afterwards; the model does not track element types), concat(x, x) diverges (KF-C04-self-concat): both are answered bad-op by harness and model and a history containing one is outside the contract (inContract requires that the operation was executed)',
+                   'arguments are fresh objects, never elements of the container they are passed to (push(a, get(a, i)): Array_Push reads the argument after realloc — C04\'s subject)',
+                   'invariants are stated after every operation; nothing is claimed about the states inside one operation',
                    'element and argument types agree (type errors are C12), payloads < 2^31, fewer than 2^63 elements')
 
     def cases(self, rng, tier, boost=1):
@@ -269,11 +295,11 @@ class C05(Spec):
         def add(name, lines): cs.append(Case(name, lines))
         nh = (12 if quick else 150) * boost
         nops = 300 if quick else 2500
-        allk = {'A': 3, 'L': 3, 'T': 3, 'R': 3, 'B': 1}
+        allk = {'A': 3, 'L': 3, 'T': 3, 'R': 3, 'B': 1, 'C': 1}
         for i in range(nh): add(f'mixed{i}', history(rng, nops, allk))
         for i in range(nh): add(f'seq{i}', history(rng, nops, {'A': 3, 'L': 3}, paymax=12))
         for i in range(nh): add(f'map{i}', history(rng, nops, {'T': 3, 'R': 2}, maxlen=30))
-        for i in range(max(nh // 2, 2)): add(f'box{i}', history(rng, nops // 2, {'B': 3, 'A': 1}))
+        for i in range(max(nh // 2, 2)): add(f'box{i}', history(rng, nops // 2, {'B': 3, 'C': 3, 'A': 1, 'L': 1, 'T': 1}))
         for i in range(max(nh // 2, 2)): add(f'err{i}', history(rng, nops // 2, allk, fail=0.25, maxlen=6))
         for i in range(max(nh // 2, 2)):
             add(f'dense{i}', history(rng, nops, {'T': 2, 'R': 1}, keypool=list(range(1, 13)), maxlen=12))
